@@ -116,4 +116,12 @@ TEXT = {
                  "bounding box wrapped the voxel index, hole filling iterated over a growing vector (all fixed). Exploration.",
         "note": "Trusted: polygen.hpp (exact input surface), geom.hpp. Liveness = returned within the per-case watchdog.",
     },
+    "C19": {
+        "technique": "rapidcheck property-based testing over generated (dt, S, T) ratio classes and population histories; invariants over the output history (file numbering, strict VTK parse, statistics rows vs getters)",
+        "level": "After every generated run the output directory is enumerated and parsed with the independent strict parser, the numbering "
+                 "must be 1..K without gaps with K within one of floor(T/S)+1, the ids in each file those alive when it was written, time "
+                 "the exact float fold of dt, and every statistics row is compared with the cells' getters rendered in the documented format. "
+                 "Found the numbering gaps for S = k dt (fixed). Exploration.",
+        "note": "Trusted: vtkparse.hpp and the harness's reading of 'alive when recorded' (see assumptions in the evidence).",
+    },
 }
